@@ -13,6 +13,7 @@ RULE = ('complete enumeration: every constructible Cayley table S2..S5, A3..A5, 
         'partition counts N<=60 against the pentagonal recurrence, diagram lists N<=12 (N<=20 thorough), standard Young tableaux of every '
         'partition of N<=8 (N<=10 thorough) against direct hook counting. Every enumerated (table)/(N)/(shape) is one distinct non-trivial case.'
         ' Histories also build S_n / A_n tables in generated order after clearing the caches; second-call clause (edit the returned array, call again) for tables, partition table, diagrams and tableaux; quick tier also enumerates the shapes of N=9..12 with few tableaux.')
+RULE += " Left-regular forms are also taken from one array object that is overwritten in place with another group's table between the calls."
 ASSUMPTIONS = ['expected group orders n!, n!/2, 2n, n, phi(n), 4, 8 and the hook-length formula are computed independently in vf',
                'irreducibility/inequivalence of the returned blocks is decided by character orthonormality at 1e-8']
 
